@@ -24,7 +24,7 @@ import (
 
 func init() {
 	mc.Register(&mc.Check{ID: "C10", Category: "fault_enumeration",
-		Rule:   "cases: (1) every truncation, size/type-field boundary value and pair, trailing-byte and cut-signed-data variant of honest quotes into the three raw entry points; (2) every single and double structural mutation of a valid message (sub-message nil/empty, bytes nil/0/n-1/n+1, list counts 0..5, numeric boundaries) into the eight message entry points; (3) every combination of <=2 faulty endpoint answers from a response menu at the four fetch points; (4) every truncation, tag replacement and length-octet change of the SGX extension DER. Each under recover with a 60 s watchdog. Non-trivial: not the unmodified baseline; distinct by id",
+		Rule:   "cases: (1) every truncation, size/type-field boundary value and pair, trailing-byte and cut-signed-data variant of honest quotes, and every 16-bit size/type field at all 65536 values (32-bit ones at 0..len+64 and the top 64 values), into the three raw entry points; (2) every single and double structural mutation of a valid message (sub-message nil/empty, bytes nil/0/n-1/n+1, list counts 0..5, numeric boundaries) into the eight message entry points; (3) every combination of <=2 faulty endpoint answers from a response menu at the four fetch points; (4) every truncation, tag replacement and length-octet change of the SGX extension DER. Each under recover with a 60 s watchdog. Non-trivial: not the unmodified baseline; distinct by id",
 		Assume: []string{"unrecoverable runtime faults (stack exhaustion, OOM) would abort the run and be attributed to the whole check, not a case", "coverage-guided fuzzing named in the quantifier is sampling and is not performed"},
 		Run:    runC10})
 }
